@@ -45,6 +45,12 @@ CLAIMED = {
             "the start (front ops) or end (back ops) offset of the parser it was called on with the matching direction and kind. The "
             "constructors satisfy the invariant, so induction covers operation sequences of any length; the bound is on string size only.",
             "DESIGN.md#c13"),
+    "C14": (BMC + "the free string functions applied to the pre-state remainder (delegation), from an arbitrary reachable Parser state; split protocols vs a naive splitter",
+            "One step of each Parser operation from every window/base/flag state leaves exactly the remainder (address and length) that "
+            "string::{trim*,trim_*matches,strip_*,find_skip,rfind_skip,split_once,rsplit_once,find} compute on the previous remainder, "
+            "succeeds exactly when they find something, and the one-shot split flag behaves as specified (set exactly when no delimiter "
+            "is left, then SplitExhausted, preserved by every other operation). Protocols to exhaustion are bounded cross-checks "
+            "(quick: strings <=3 bytes, delimiter \",\"); the free functions themselves are tied to std by C04/C05.", "DESIGN.md#c14"),
     "C16": (BMC + "std == / Ord::cmp on symbolic pairs (lexicographic reference for slices), should_panic twins for assertc_eq!/assertc_ne!",
             "Scalars, NonZero*, Ordering, ranges and Option of them are compared with std over their whole domains (exhaustive per pair); "
             "strings, slices of every primitive, slices of strings/byte slices over all contents up to the stated lengths (all length "
